@@ -13,6 +13,8 @@ from vlib.tr_filter import tr_filter
 from vlib.filt import AREA, UIDS, build_impl, probe, uid_list, malformed_list, near_misses, numeral, shrink_list, FAST_ASAN
 
 EUIDS = [0, 7, 1000, 65534, 2 ** 32 - 2]
+HIGH_UIDS = [2 ** 32 - 10, 2 ** 32 - 6, 2 ** 32 - 3]      # the top of the uid range (2^32-1 is not a uid), fewer lists each
+ERRNOS = [34, 22]                                        # ERANGE, EINVAL: what the host program may have left in errno
 
 
 def corpus_cases():
@@ -33,13 +35,14 @@ def other_euid(rng, r):
 
 def gen_cases(rng, tier):
     """returns (cases, meta); meta[i] = dict(kind, uid, n, include)"""
-    per_uid = 250 if tier == "quick" else 2200
+    per_uid_full = 250 if tier == "quick" else 2200
     cases, meta = [], []
 
     def add(line, **m):
         cases.append(line)
         meta.append(m)
-    for r in UIDS:
+    for r in UIDS + HIGH_UIDS:
+        per_uid = per_uid_full if r in UIDS else max(10, per_uid_full // 6)
         e1 = other_euid(rng, r)
         add("uidf\troot\t%d\t%d\t%s" % (r, r, hexs(b"ignored")), kind="root", uid=r)
         # every effective uid in turn: only_root, and the list that names exactly the EFFECTIVE uid
@@ -54,6 +57,11 @@ def gen_cases(rng, tier):
         for v in [r] + near_misses(r):
             for w in ("only", "exclude"):
                 add("uidf\t%s\t%d\t%d\t%s" % (w, r, e1, hexs(b"%d" % v)), kind="wf", uid=r, n=1, include=(v == r))
+        # the same decisions with a stale errno of the host program
+        for v in [r, r + 1 if r + 1 < 2 ** 32 else r - 1]:
+            for w in ("only", "exclude"):
+                for en in ERRNOS:
+                    add("uidf\t%s\t%d\t%d\t%s\t%d" % (w, r, e1, hexs(b"%d" % v), en), kind="wf", uid=r, n=1, include=(v == r))
         for k in range(per_uid):
             n = rng.choice([1, 1, 2, 3, 5, 10, 50, 127, 128, 129, 199, 200, 255, 256, 257, 300, 520]) if k % 4 else rng.randrange(1, 201)
             inc = rng.random() < 0.5
@@ -61,6 +69,9 @@ def gen_cases(rng, tier):
             e = other_euid(rng, r) if rng.random() < 0.8 else r
             for w in ("only", "exclude"):
                 add("uidf\t%s\t%d\t%d\t%s" % (w, r, e, hexs(L)), kind="wf", uid=r, n=L.count(b",") + 1, include=inc)
+            if k % 5 == 1:
+                for w in ("only", "exclude"):
+                    add("uidf\t%s\t%d\t%d\t%s\t%d" % (w, r, e, hexs(L), ERRNOS[k % 2]), kind="wf", uid=r, n=L.count(b",") + 1, include=inc)
             if k % 4 == 0:
                 # the same decision under another effective uid, and through the chain
                 e2 = rng.choice([x for x in EUIDS if x not in (r, e)])
@@ -76,6 +87,8 @@ def gen_cases(rng, tier):
             e = other_euid(rng, r)
             for w in ("only", "exclude"):
                 add("uidf\t%s\t%d\t%d\t%s" % (w, r, e, hexs(M)), kind="malformed", uid=r)
+                if k % 3 == 0:
+                    add("uidf\t%s\t%d\t%d\t%s\t%d" % (w, r, e, hexs(M), ERRNOS[0]), kind="malformed", uid=r)
             add("csv\t%s" % hexs(M), kind="csv", uid=r)
     # one and the same list under every real uid in turn (a decision must not survive from the previous call)
     for k in range(6 if tier == "quick" else 60):
@@ -132,7 +145,7 @@ def minimise(run, exe, case):
     if f[0] != "uidf" or f[1] == "root" or exe is None:
         return case
     items = (unhex(f[4]) or b"").split(b",")
-    mk = lambda its: "\t".join(f[:4] + [hexs(b",".join(its))])
+    mk = lambda its: "\t".join(f[:4] + [hexs(b",".join(its))] + f[5:])
     items = shrink_list(items, lambda its: fails(run, exe, mk(its)))
     stripped = [it.lstrip(b"0") or b"0" for it in items]
     if stripped != items and fails(run, exe, mk(stripped)):
@@ -172,16 +185,29 @@ def classify(run, res, cases, stream, exe=None):
             shrunk.add(sig)
             seq = reproduce(run, exe, cases, i)
             c = seq[-1]
-        run.violation(sig, "sanitizer", "implementation faulted (%s) on %s" % (impl, "\t".join(c.split("\t")[:4]) + "\t" + repr((unhex(c.split("\t")[-1]) or b"")[:80]))
+        run.violation(sig, "sanitizer", "implementation faulted (%s) on %s" % (impl, "\t".join(c.split("\t")[:4]) + "\t" + repr((unhex(c.split("\t")[4] if len(c.split("\t")) > 4 else c.split("\t")[-1]) or b"")[:80]))
                       + (" (as the last of %d calls in one process)" % len(seq) if len(seq) > 1 else ""),
                       {"stream": stream, "failing_input": c, "impl_output": impl, "model_output": res["model"][i], "cases": seq})
         nv += 1
     # complement and independence of the effective uid, on the implementation's verdicts
-    by = {}
+    by, by_errno = {}, {}
     for c, o in zip(cases, res["impl"]):
         f = c.split("\t")
         if f[0] == "uidf" and o.startswith("ok\t"):
-            by.setdefault((f[2], f[4]), {}).setdefault(f[1], {})[f[3]] = o.split("\t")[1]
+            if len(f) == 5:
+                by.setdefault((f[2], f[4]), {}).setdefault(f[1], {})[f[3]] = o.split("\t")[1]
+            by_errno.setdefault((f[1], f[2], f[3], f[4]), {})[f[5] if len(f) > 5 else "0"] = o.split("\t")[1]
+    # the host program's errno must not influence a decision (any argument, well formed or not)
+    nerr = 0
+    for (w, r, e, arg), d in by_errno.items():
+        if len(set(d.values())) > 1 and nerr < 3:
+            nerr += 1
+            en = sorted(d, key=lambda x: (x == "0", x))
+            cs = ["uidf\t%s\t%s\t%s\t%s%s" % (w, r, e, arg, "" if x == "0" else "\t" + x) for x in (en[-1], en[0])]
+            run.violation("spec:errno-dependence", "spec_violation", "%s under real uid %s decides %s on the argument %r depending on the value errno had before the call"
+                          % ({"only": "only_uid", "exclude": "exclude_uid", "root": "only_root"}[w], r, sorted(d.items()), (unhex(arg) or b"")[:120]),
+                          {"stream": stream, "failing_input": cs[1], "cases": cs})
+            nv += 1
     pairs, idx = [], []
     for (r, arg), d in by.items():
         for w, per_e in d.items():
@@ -245,7 +271,7 @@ def check(run):
     distinct = len(set(c for c, m in wf if m["n"] >= 2))
     run.coverage.update({
         "evaluations": len(allcases), "distinct_nontrivial": distinct,
-        "rule": "per real uid in %s (effective uid unrelated): the uid itself and each near miss (uid+-1, decimal prefixes and suffixes, x10, +2^31) as one-element lists; "
+        "rule": "per real uid in %s and (fewer lists) 2^32-10, 2^32-6, 2^32-3 (effective uid unrelated; a share of the cases with errno preset to ERANGE / EINVAL): the uid itself and each near miss (uid+-1, decimal prefixes and suffixes, x10, +2^31) as one-element lists; "
                 "well-formed lists of 1..520 numerals (leading zeros, duplicates, any order) with and without the uid; the same list under a second effective uid and inside a chain; "
                 "malformed lists for complement / crash freedom; csvToArgList on random strings; non-trivial = distinct well-formed case with >= 2 entries" % UIDS,
         "samples": [c[:300] for c in allcases[:: max(1, len(allcases) // 5)]][:5],
